@@ -964,9 +964,9 @@ fn main() {
 
 	let reg: Vec<OrderCase> = check.regression_cases("order");
 	check.enumerate("regressions-order", reg, false, order_oracle);
-	check.phase("order", check.cases(3000, 60_000), order_case, order_oracle);
-	check.phase("trees", check.cases(50_000, 1_000_000), || tree_case(max_depth), trees_oracle);
-	check.phase("broken", check.cases(30_000, 400_000), broken_case, broken_oracle);
-	check.phase("factory", check.cases(12_000, 150_000), factory_case, factory_oracle);
+	check.phase("order", check.cases(15_000, 200_000), order_case, order_oracle);
+	check.phase("trees", check.cases(400_000, 6_000_000), || tree_case(max_depth), trees_oracle);
+	check.phase("broken", check.cases(250_000, 3_000_000), broken_case, broken_oracle);
+	check.phase("factory", check.cases(60_000, 600_000), factory_case, factory_oracle);
 	check.finish();
 }
